@@ -56,7 +56,13 @@ def build(tree, layers_spec, limits=None, logx=False, logy=False, loglog=False, 
     hooks["ext_default"] = ext_default
     hooks["builtins"] = {"abs": lambda x: Sc(Poly.sym(Fn("abs", x.r))) if isinstance(x, Sc) else abs(x)}
 
-    def kernel(**kw):
+    kparams = [a.arg for a in tree.func("plot/utils.py::hist2d").node.args.args]
+
+    def kernel(*pos, **kw):
+        # arguments bound to the kernel's own parameter names, however the call spells them (positionally or by keyword)
+        if len(pos) > len(kparams) or any(n in kw for n in kparams[:len(pos)]):
+            raise Raised("TypeError", None, "hist2d() called with arguments that do not bind")
+        kw = dict(zip(kparams, pos), **kw)
         rec.kernel = kw
         v = kw.get("values")
         if not isinstance(v, Stack):
